@@ -207,7 +207,9 @@ def match_known(prop, v, known):
       continue  # 'fixed' entries suppress nothing
     if k['property'] != prop:
       continue
-    if k['kernel'] != v['kernel'] or k['site'] != v['site']:
+    kk = k['kernel'] if isinstance(k['kernel'], list) else [k['kernel']]
+    ks = k['site'] if isinstance(k['site'], list) else [k['site']]
+    if v['kernel'] not in kk or v['site'] not in ks:
       continue
     cond = k.get('condition')
     if cond and cond not in v.get('tags', []):
